@@ -1453,16 +1453,12 @@ def Calc_projector(oldMesh: Mesh, newMesh: Mesh) -> sp.csr_matrix:
     assert testSum1
 
     # Here we detect whether nodes appear more than once
-    #   I don't know how to modify this function because np.unique can take a long time.
-    counts = np.unique(detectedNodes, return_counts=True)[1]
-    nodesSup1 = np.where(counts > 1)[0]
-    # nodesSup1 are nodes that have been detected several times.
-    if nodesSup1.size > 0:
-        # divide the shape function values by the number of appearances.
-        # Its like doing an average on shapes functions
-        phi_n_nPe[nodesSup1] = np.einsum(
-            "ni,n->ni", phi_n_nPe[nodesSup1], 1 / counts[nodesSup1], optimize="optimal"
-        )
+    # A node lying on an edge (or a corner) shared by several elements is detected in each of them,
+    #   but coordo_n (and phi_n_nPe) only holds its coordinates in the last element that detected it.
+    # The node is therefore only used with the connectivity of this element.
+    lastElement_n = np.full(newMesh.Nn, -1, dtype=int)
+    for element, nodes in zip(detectedElements_e, connect_e_n):
+        lastElement_n[np.asarray(nodes)] = element
 
     # Builds the projector
     # This projector is a hollow matrix of dimension (newMesh.Nn, oldMesh.Nn)
@@ -1472,6 +1468,7 @@ def Calc_projector(oldMesh: Mesh, newMesh: Mesh) -> sp.csr_matrix:
     values: list[float] = []
 
     def FuncExtend_Proj(element: int, nodes: _types.IntArray):
+        nodes = nodes[lastElement_n[nodes] == element]
         values.extend(np.ravel(phi_n_nPe[nodes]))
         lines.extend(np.repeat(nodes, nPe))
         columns.extend(np.asarray(list(connect_e[element]) * nodes.size))
